@@ -310,6 +310,19 @@ func sinkCreations(fn *ssa.Function) []sinkCreation {
 		res := sig.Results()
 		switch {
 		case res.Len() == 1 && isSinkChan(res.At(0).Type()):
+			// a function that only hands the channel on to its own caller (a writer built on a
+			// shared streaming helper) creates no sink of its own: its caller does
+			forwarded := len(*c.Referrers()) > 0
+			for _, ref := range *c.Referrers() {
+				switch ref.(type) {
+				case *ssa.Return, *ssa.DebugRef:
+				default:
+					forwarded = false
+				}
+			}
+			if forwarded {
+				return
+			}
 			out = append(out, sinkCreation{call: c, ch: c})
 		case res.Len() == 2 && isSinkChan(res.At(0).Type()) && isErrorType(res.At(1).Type()):
 			sc := sinkCreation{call: c}
